@@ -1774,5 +1774,6 @@ func main() {
 			c.Sample(map[string]interface{}{"config": spec.name, "kinds_per_block": ch.kinds, "fork_at": ch.forkAt, "fork_len": len(ch.fork)})
 		}
 	}
+	partDeriveLarge(c)
 	c.Finish()
 }
